@@ -17,7 +17,7 @@ import re
 import shutil
 import xml.etree.ElementTree as ET
 
-from common import App
+from common import parse_multistatus, App
 
 PROP_FILES = ["Props/C14.lean"]
 LEVEL = "proof"
@@ -246,15 +246,17 @@ VTIMEZONE = ["BEGIN:VTIMEZONE", "TZID:Europe/Berlin", "BEGIN:STANDARD", "DTSTART
              "TZOFFSETFROM:+0100", "TZOFFSETTO:+0200", "RRULE:FREQ=YEARLY;BYMONTH=3;BYDAY=-1SU", "TZNAME:CEST", "END:DAYLIGHT", "END:VTIMEZONE"]
 
 
-def gen_calendar_object(rng, uid):
+def gen_calendar_object(rng, uid, recurring=False):
     kind = rng.random()
     with_tz = rng.random() < 0.3
+    if recurring:
+        kind, with_tz = 0.0, False
     body = ["BEGIN:VCALENDAR", "VERSION:2.0", "PRODID:-//verif c14//EN"]
     if with_tz:
         body += VTIMEZONE
     if kind < 0.7:
         body += gen_event(rng, uid, with_tz)
-        if rng.random() < 0.2 and not with_tz:
+        if (recurring or rng.random() < 0.2) and not with_tz:
             # a recurring main event with an override
             body = body[:3] + ["BEGIN:VEVENT", "UID:%s" % uid, "DTSTAMP:20240101T000000Z", "DTSTART:20240102T100000Z", "DTEND:20240102T110000Z",
                                "RRULE:FREQ=WEEKLY;COUNT=4", "SUMMARY:main", "END:VEVENT"] + gen_event(rng, uid, False, override=True)
@@ -404,20 +406,39 @@ def collection_level(ctx):
                 comps = []
                 tz = False
                 for u in uids:
-                    o = gen_calendar_object(rng, u)
+                    o = gen_calendar_object(rng, u, recurring=rng.random() < 0.4)
                     inner = o[3:-1]
                     if inner[:1] == ["BEGIN:VTIMEZONE"]:
                         inner = inner[len(VTIMEZONE):]
                         tz = True
                     comps.append(inner)
                 lines = ["BEGIN:VCALENDAR", "VERSION:2.0", "PRODID:-//verif c14//EN"] + (VTIMEZONE if tz else [])
+                # the components of one object (a recurring event and its overrides) need not be adjacent in an upload:
+                # in half of the cases all top-level components are put in a random order
+                tops = []
+                for c in comps:
+                    depth, cur = 0, []
+                    for ln in c:
+                        cur.append(ln)
+                        if ln.startswith("BEGIN:"):
+                            depth += 1
+                        elif ln.startswith("END:"):
+                            depth -= 1
+                            if depth == 0:
+                                tops.append(cur)
+                                cur = []
+                interleaved = rng.random() < 0.5
+                if interleaved:
+                    rng.shuffle(tops)
+                    comps = tops
                 for c in comps:
                     lines += c
                 lines.append("END:VCALENDAR")
                 body = "\r\n".join(lines) + "\r\n"
                 st, _, _ = app.request("PUT", "/u/cal/", body, login="u:pw", CONTENT_TYPE="text/calendar")
                 coll = "/u/cal/"
-            case = {"kind": "addressbook" if book else "calendar", "objects": k, "upload_head": body[:200]}
+            case = {"kind": "addressbook" if book else "calendar", "objects": k, "upload_head": body[:200],
+                    "components_in_random_order": (not book) and interleaved}
             ctx.case("whole:%s" % case["kind"], sample=case, key=[i, "whole"], nontrivial=k > 1)
             if st != 201:
                 ctx.violation("a whole-collection upload from the grammar was refused with %d" % st, case)
@@ -444,6 +465,31 @@ def collection_level(ctx):
             eo, etz = objects(ex)
             if uo != eo:
                 ctx.violation("export differs from the uploaded collection: uploaded UIDs %s, exported %s" % (sorted(uo), sorted(eo)), case)
+            # the stored objects themselves: one per UID, each holding all (and only) the components of its UID
+            stp, _, listing = app.request("PROPFIND", coll, '<?xml version="1.0"?><D:propfind xmlns:D="DAV:"><D:prop><D:getetag/></D:prop></D:propfind>',
+                                          login="u:pw", HTTP_DEPTH="1")
+            if stp != 207:
+                ctx.violation("PROPFIND on the uploaded collection answers %d" % stp, case)
+                continue
+            ms, order, _ = parse_multistatus(listing)
+            hrefs = [h for h in order if h.rstrip("/") != coll.rstrip("/")]
+            stored = {}
+            for h in hrefs:
+                stg, _, text = app.request("GET", h, login="u:pw")
+                if stg != 200:
+                    ctx.violation("GET of a listed member answers %d" % stg, dict(case, href=h))
+                    continue
+                one, _ = objects(parse_content(text))
+                if len(one) != 1:
+                    ctx.violation("a stored object holds components of %d UIDs" % len(one), dict(case, href=h, uids=sorted(one)))
+                for u_, cs in one.items():
+                    stored.setdefault(u_, []).append(cs)
+            split = {u_: len(v) for u_, v in stored.items() if len(v) > 1}
+            if split:
+                ctx.violation("components sharing a UID were stored as several objects (%s): the set of objects of the upload is not preserved"
+                              % split, dict(case, members=len(hrefs), upload=body if len(body) < 3000 else body[:3000]))
+            elif {u_: v[0] for u_, v in stored.items()} != uo:
+                ctx.violation("the stored objects differ from the uploaded ones: uploaded UIDs %s, stored %s" % (sorted(uo), sorted(stored)), case)
             tzids = [[v for n_, p, v in t[1] if n_ == "TZID"] for t in etz]
             if len(tzids) != len(set(map(tuple, tzids))):
                 ctx.violation("a VTIMEZONE appears more than once in the export", case)
